@@ -214,6 +214,7 @@ namespace pika::split_detail {
             os.reset();
 
             predecessor_done = true;
+            PIKA_VERIF_POINT(121, this);
 
             {
                 // We require taking the lock here to synchronize with
@@ -251,6 +252,7 @@ namespace pika::split_detail {
                 std::lock_guard<mutex_type> l{mtx};
             }
 
+            PIKA_VERIF_POINT(122, this);
             if (!continuations.empty())
             {
                 for (auto const& continuation : continuations) { continuation(); }
@@ -299,6 +301,7 @@ namespace pika::split_detail {
                 // If predecessor_done is false, we have to take the
                 // lock to potentially add the continuation to the
                 // vector of continuations.
+                PIKA_VERIF_POINT(120, this);
                 std::unique_lock<mutex_type> l{mtx};
 
                 if (predecessor_done)
